@@ -56,6 +56,8 @@ func copyFile(src, dst string) {
 	out.Close()
 }
 
+var worldSeq int
+
 type world struct {
 	db   walletdb.DB
 	w    *wallet.Wallet
@@ -63,11 +65,13 @@ type world struct {
 }
 
 var (
-	coins   []wire.OutPoint // funded outpoints of the template
-	extPlan []string        // the next external addresses a wallet will issue, in order
-	intPlan []string        // the next internal addresses
-	ext0    uint32
-	int0    uint32
+	coins     []wire.OutPoint // funded outpoints of the template
+	extPlan   []string        // the next external addresses a wallet will issue, in order
+	intPlan   []string        // the next internal addresses
+	int86Plan []string        // the next internal addresses of scope BIP0086
+	ext0      uint32
+	int0      uint32
+	int86_0   uint32
 )
 
 func openWorld(path string) *world {
@@ -146,6 +150,9 @@ func makeTemplate(dir string) string {
 		ev.Fatal("%v", err)
 	}
 	ext0, int0 = props.ExternalKeyCount, props.InternalKeyCount
+	if p86, err := accountPropsOf(y, waddrmgr.KeyScopeBIP0086); err == nil {
+		int86_0 = p86.InternalKeyCount
+	}
 	for i := 0; i < 4; i++ {
 		a, err := y.w.NewAddress(0, scope)
 		if err != nil {
@@ -157,16 +164,23 @@ func makeTemplate(dir string) string {
 			ev.Fatal("plan: %v", err)
 		}
 		intPlan = append(intPlan, c.EncodeAddress())
+		c86, err := y.w.NewChangeAddress(0, waddrmgr.KeyScopeBIP0086)
+		if err != nil {
+			ev.Fatal("plan: %v", err)
+		}
+		int86Plan = append(int86Plan, c86.EncodeAddress())
 	}
 	y.close()
 	os.Remove(scratch)
 	return path
 }
 
-func accountProps(x *world) (*waddrmgr.AccountProperties, error) {
+func accountProps(x *world) (*waddrmgr.AccountProperties, error) { return accountPropsOf(x, scope) }
+
+func accountPropsOf(x *world, sc waddrmgr.KeyScope) (*waddrmgr.AccountProperties, error) {
 	var p *waddrmgr.AccountProperties
 	err := walletdb.View(x.db, func(tx walletdb.ReadTx) error {
-		sm, err := x.w.Manager.FetchScopedKeyManager(scope)
+		sm, err := x.w.Manager.FetchScopedKeyManager(sc)
 		if err != nil {
 			return err
 		}
@@ -182,6 +196,7 @@ type result struct {
 	err     error
 	ext     []string // external addresses obtained
 	intl    []string // internal (change) addresses obtained
+	intl86  []string // internal addresses of scope BIP0086 obtained
 	commits bool     // whether a successful call persists its address
 }
 
@@ -237,6 +252,22 @@ var ops = map[string]func(x *world, r *result){
 		r.err, r.commits = err, false
 		if err == nil && tx.ChangeIndex >= 0 {
 			r.intl = []string{extAddr(tx.Tx.TxOut[tx.ChangeIndex].PkScript)}
+		}
+	},
+	"TxNilChangeScope": func(x *world, r *result) {
+		// no change scope given: the wallet's default change scope (BIP0086) is used
+		out := wire.NewTxOut(5e6, payTo)
+		tx, err := x.w.VerifTxToOutputs([]*wire.TxOut{out}, nil, nil, 0, 1, 1000, wallet.CoinSelectionLargest, false, nil)
+		r.err, r.commits = err, true
+		if err == nil && tx.ChangeIndex >= 0 {
+			r.intl86 = []string{extAddr(tx.Tx.TxOut[tx.ChangeIndex].PkScript)}
+		}
+	},
+	"NewChangeAddress86": func(x *world, r *result) {
+		a, err := x.w.NewChangeAddress(0, waddrmgr.KeyScopeBIP0086)
+		r.err, r.commits = err, true
+		if err == nil {
+			r.intl86 = []string{a.EncodeAddress()}
 		}
 	},
 	"FundPsbtPreset": func(x *world, r *result) {
@@ -324,7 +355,7 @@ func main() {
 	}
 	dir := ev.Scratch()
 	tmpl := makeTemplate(dir)
-	names := []string{"NewAddress", "NewChangeAddress", "CurrentAddress", "TxWithChange", "TxDryRun", "FundPsbtPreset"}
+	names := []string{"NewAddress", "NewChangeAddress", "CurrentAddress", "TxWithChange", "TxDryRun", "FundPsbtPreset", "TxNilChangeScope", "NewChangeAddress86"}
 	var scenarios []scenario
 	for i, a := range names {
 		for _, b := range names[i:] {
@@ -356,12 +387,18 @@ func main() {
 			break
 		}
 		scName := strings.Join(sc.Threads, "||")
-		wpath := filepath.Join(dir, "c09-world.db")
+		wpath := filepath.Join(dir, fmt.Sprintf("c09-world-%d.db", worldSeq))
 		var cur *world
 		var results []*result
+		leaked := false // the previous execution left blocked threads (deadlock/panic): its locks are still held
 		runOnce := func(prefix []int) (*vsync.Exec, error) {
-			if cur != nil {
+			if cur != nil && !leaked {
 				cur.close()
+			}
+			if leaked {
+				// the leaked world still holds its file lock: continue on a new file
+				worldSeq++
+				wpath = filepath.Join(dir, fmt.Sprintf("c09-world-%d.db", worldSeq))
 			}
 			copyFile(tmpl, wpath)
 			vsync.ResetNames()
@@ -373,7 +410,9 @@ func main() {
 				results[i] = &result{op: name}
 				bodies = append(bodies, func() { ops[name](cur, results[i]) })
 			}
-			return vsync.Run(bodies, prefix)
+			x, err := vsync.Run(bodies, prefix)
+			leaked = x != nil && (x.Deadlock || len(x.Panics) > 0)
+			return x, err
 		}
 		// CHESS iteration: bound 0, then 1, ... (an execution is checked once per bound it belongs to;
 		// counting distinct executions uses the choice vector)
@@ -401,10 +440,10 @@ func main() {
 				ev.Fatal("scenario %s: %v", scName, err)
 			}
 		}
-		if cur != nil {
+		if cur != nil && !leaked {
 			cur.close()
-			cur = nil
 		}
+		cur = nil
 	}
 	if len(samples) == 0 {
 		samples = []string{"(none)"}
@@ -471,7 +510,7 @@ func checkExec(run *ev.Run, sc scenario, x *vsync.Exec, w *world, results []*res
 	// order of the calls must explain every returned address. (Each thread
 	// makes one call and all calls overlap, so every permutation is allowed.)
 	type mstate struct {
-		e, i        int
+		e, i, i86   int
 		lastExtUsed bool
 	}
 	step := func(m mstate, r *result) (mstate, bool) {
@@ -510,6 +549,10 @@ func checkExec(run *ev.Run, sc scenario, x *vsync.Exec, w *world, results []*res
 			return m, ok
 		case "TxDryRun":
 			return m, one(r.intl) == get(intPlan, m.i)
+		case "TxNilChangeScope", "NewChangeAddress86":
+			ok := one(r.intl86) == get(int86Plan, m.i86)
+			m.i86++
+			return m, ok
 		}
 		return m, false
 	}
@@ -538,7 +581,7 @@ func checkExec(run *ev.Run, sc scenario, x *vsync.Exec, w *world, results []*res
 	}
 	var got []string
 	for _, r := range results {
-		got = append(got, fmt.Sprintf("%s=%v%v", r.op, r.ext, r.intl))
+		got = append(got, fmt.Sprintf("%s=%v%v%v", r.op, r.ext, r.intl, r.intl86))
 	}
 	for _, r := range results {
 		if r.err != nil {
@@ -551,7 +594,7 @@ func checkExec(run *ev.Run, sc scenario, x *vsync.Exec, w *world, results []*res
 		fresh := map[string]int{}
 		for _, r := range results {
 			if r.err == nil && r.op != "CurrentAddress" && r.op != "TxDryRun" {
-				for _, a := range append(append([]string{}, r.ext...), r.intl...) {
+				for _, a := range append(append(append([]string{}, r.ext...), r.intl...), r.intl86...) {
 					fresh[a]++
 					if fresh[a] > 1 {
 						kind = "duplicate-address"
@@ -574,12 +617,22 @@ func checkExec(run *ev.Run, sc scenario, x *vsync.Exec, w *world, results []*res
 		fail("memory-count:"+pairName(sc.Threads), fmt.Sprintf("live manager key counts ext=%d int=%d, expected %d and %d (%d external and %d internal addresses were issued)",
 			p.ExternalKeyCount, p.InternalKeyCount, ext0+uint32(len(ext)), int0+uint32(len(intl)), len(ext), len(intl)))
 	}
+	if p86, err := accountPropsOf(w, waddrmgr.KeyScopeBIP0086); err != nil {
+		fail("props-error", err.Error())
+	} else if p86.InternalKeyCount != int86_0+uint32(final.i86) {
+		fail("memory-count:"+pairName(sc.Threads), fmt.Sprintf("live manager BIP0086 internal key count %d, expected %d", p86.InternalKeyCount, int86_0+uint32(final.i86)))
+	}
 	// fresh manager on a copy of the file
 	cp := w.path + ".fresh"
 	copyFile(w.path, cp)
 	f := openWorld(cp)
 	fp, err := accountProps(f)
+	fp86, err86 := accountPropsOf(f, waddrmgr.KeyScopeBIP0086)
+	lp86, _ := accountPropsOf(w, waddrmgr.KeyScopeBIP0086)
 	f.close()
+	if err86 == nil && lp86 != nil && fp86.InternalKeyCount != lp86.InternalKeyCount {
+		fail("memory-vs-database:"+pairName(sc.Threads), fmt.Sprintf("BIP0086 internal key count live=%d database=%d", lp86.InternalKeyCount, fp86.InternalKeyCount))
+	}
 	os.Remove(cp)
 	if err != nil {
 		fail("fresh-props-error", err.Error())
